@@ -8,6 +8,7 @@ spawn failure propagates, and that the transport fabricates no result."""
 from __future__ import annotations
 
 import ast
+import re
 
 from .. import anchors as A
 from ..consteval import try_fold
@@ -71,6 +72,84 @@ def check(P: Project, R: Report) -> None:
     cl = _stdio.client(P)
     meths = P.methods(cl)
     rel = cl.module.rel
+
+    # ------------------------------------------------------------------ R9: descriptors the client opens for itself
+    R.rule("R9", "no descriptor of the client's own is left open: a file, pipe or socket the client opens itself and keeps on the object (a spool for the child's stderr, a log file) is closed on the part of __aexit__ that runs on every exit — statements of its outermost `finally` not conditional on the state of the process — cancellation and an already-dead child included")
+    OPENERS = ("open", "tempfile.TemporaryFile", "tempfile.NamedTemporaryFile", "tempfile.SpooledTemporaryFile", "tempfile.mkstemp", "os.open", "os.pipe", "os.dup", "socket.socket", "socket.socketpair", "io.open")
+    opened = {}
+    for f in meths.values():
+        for s_ in walk_local(f.node):
+            if isinstance(s_, (ast.Assign, ast.AnnAssign)) and isinstance(getattr(s_, "value", None), ast.Call) and call_name(s_.value) in OPENERS:
+                for t_ in (s_.targets if isinstance(s_, ast.Assign) else [s_.target]):
+                    if isinstance(t_, ast.Attribute) and isinstance(t_.value, ast.Name) and t_.value.id == "self":
+                        opened[t_.attr] = (f, s_)
+    ax9 = meths.get("__aexit__")
+    for attr_, (f_, s_) in sorted(opened.items()):
+        R.fn(f_.fq)
+
+        def holders_of(node):
+            hs = set()
+            for a_ in walk_local(node):
+                if isinstance(a_, ast.Assign) and len(a_.targets) == 1:
+                    pairs_ = [(a_.targets[0], a_.value)]
+                    if isinstance(a_.targets[0], ast.Tuple) and isinstance(a_.value, ast.Tuple) and len(a_.targets[0].elts) == len(a_.value.elts):
+                        pairs_ = list(zip(a_.targets[0].elts, a_.value.elts))
+                    for t_, v_ in pairs_:
+                        if isinstance(t_, ast.Name) and ast.unparse(v_) == f"self.{attr_}":
+                            hs.add(t_.id)  # (`spool, self._spool = self._spool, None`: the local is the object)
+            return hs
+
+        def none_forms_of(hs):
+            return {f"self.{attr_} is None", f"not self.{attr_}"} | {f"{h_} is None" for h_ in hs} | {f"not {h_}" for h_ in hs}
+
+        def nothing_open_in(st, an_, forms):
+            return any(an_.origin(l).replace("<", "").replace(">", "") in forms or re.sub(r"·\d+·\w+", "", l) in forms for l in st.lits)
+
+        def closes(g, depth=0):
+            """True if every way out of method g has closed self.<attr_>"""
+            holders = holders_of(g.node)
+
+            def cev(call, st, an):
+                nm = call_name(call)
+                if nm.endswith(".close") and isinstance(call.func, ast.Attribute) and isinstance(call.func.value, ast.Name) and call.func.value.id in holders:
+                    return "close"
+                if nm == f"self.{attr_}.close" or (nm.endswith(".close") and isinstance(call.func, ast.Attribute) and an.origin(subst_text(call.func.value, st)).strip("<>") in (f"self.{attr_}",)):
+                    return "close"
+                if nm.startswith("self.") and nm.count(".") == 1 and nm[5:] in meths and meths[nm[5:]] is not g and depth < 2 and closes(meths[nm[5:]], depth + 1):
+                    return "close"
+                return None
+
+            ga, go = run_paths(g.node, event_of=cev, fallible=False)
+            outs = [st for st, _n in go.ret] + list(go.normal)
+            none_forms = none_forms_of(holders)
+            nothing_open = lambda st: nothing_open_in(st, ga, none_forms)
+            return bool(outs) and all("close" in st.events or nothing_open(st) for st in outs)
+
+        ok9, why9 = False, "__aexit__ not found"
+        if ax9 is not None:
+            outer = [t_ for t_ in ax9.node.body if isinstance(t_, ast.Try) and t_.finalbody]
+            why9 = "__aexit__ has no outermost `finally`: a cancellation delivered at its first await skips everything after it"
+            if outer:
+                fin_mod = ast.Module(body=outer[-1].finalbody, type_ignores=[])
+                fholders = holders_of(fin_mod)
+
+                def fev(call, st, an):
+                    nm = call_name(call)
+                    if nm == f"self.{attr_}.close" or (nm.endswith(".close") and isinstance(call.func, ast.Attribute) and isinstance(call.func.value, ast.Name) and call.func.value.id in fholders):
+                        return "close"
+                    if nm.startswith("self.") and nm.count(".") == 1 and nm[5:] in meths and closes(meths[nm[5:]]):
+                        return "close"
+                    return None
+
+                fa, fo = run_paths(ast.Module(body=outer[-1].finalbody, type_ignores=[]), event_of=fev, fallible=False)
+                outs = list(fo.normal) + [st for st, _n in fo.ret]
+                missing = [st for st in outs if "close" not in st.events and not nothing_open_in(st, fa, none_forms_of(fholders))]
+                ok9 = bool(outs) and not missing
+                why9 = f"a path through the `finally` of __aexit__ does not close it (under {sorted(l[:60] for l in missing[0].lits)[:3] if missing else ''})"
+        R.ob("R9", f"self.{attr_} (opened in {f_.qual}) is closed on every exit", ok9, f"{rel}:{s_.lineno}",
+             f"`{ast.unparse(s_)[:70]}`: {why9} — when the context is left by cancellation (a timeout around it) the statements of the `try` body after the first await do not run, so with a child that has already exited nothing closes the descriptor and it stays open as long as the client object lives")
+    if not opened:
+        R.ob("R9", "the client opens no file, pipe or socket of its own", True, rel, "", sample="R9 no open()/tempfile/os.open/os.pipe/socket result kept on the client")
 
     # ------------------------------------------------------------------ R1
     term = None
